@@ -904,7 +904,7 @@ class Prop:
         if case['k'] == 4 or (case['k'] == 8 and not xnlri_modelled(case)):
             return []       # not modelled (differential testing of the real round trip only)
         if case['k'] == 8 and len(obs) == 6:
-            return [obs[0], obs[3], obs[4], obs[5]]     # accepted, decodes back, relisted, API form listed
+            return [obs[0], obs[2], obs[3], obs[4], obs[5]]     # accepted, wire bytes, decodes back, relisted, API form listed
         return obs
 
     # ---- Spec oracle on the implementation's observations
